@@ -127,6 +127,20 @@ def run_grid(case):
         except BaseException as e:
             bad("roundtrip:exception", repr(e), sg)
             continue
+        # the same array objects converted again after an in-place move (what an IBM or a post-processing loop does)
+        try:
+            Xm, Ym = X.copy(), Y.copy()
+            g.xy2ll(Xm, Ym)
+            Xm += 0.21
+            Ym -= 0.13
+            inside_ = (Xm < lim[1] - 1.0) & (Ym > lim[2])
+            lo3, la3 = g.xy2ll(Xm, Ym)
+            for k in np.nonzero(inside_)[0][:40]:
+                if abs(lo3[k] - bilin(lon, Xm[k], Ym[k])) > 1e-9 or abs(la3[k] - bilin(lat, Xm[k], Ym[k])) > 1e-9:
+                    bad("xy2ll:stale-after-in-place-move", f"xy2ll of arrays changed in place since the previous call returns the lon/lat of the previous positions (at ({Xm[k]},{Ym[k]}))", sg)
+                    break
+        except BaseException as e:
+            bad("roundtrip:exception", repr(e), sg)
         # local scale: degrees per cell (smallest direction) for the induced positional bound
         for k, (x, y) in enumerate(P):
             n += 1
@@ -231,6 +245,9 @@ def run_sampler(case):
     fields = dict(bilinear=1.0 + 2.0 * ii - 0.5 * jj + 0.25 * ii * jj, generic=((ii * 5 + jj * 3) % 8) / 4.0 - 0.75)
     pos = np.arange(-0.5, 2.5 + 1e-9, 0.25)
     XY = [(float(x), float(y)) for x in pos for y in pos]
+    # positions a hair away from nodes and edges: tiny but non-zero weights must still count
+    for e in (1e-6, 1e-9):
+        XY += [(1.0 - e, 1.0 - e), (1.0 + e, 1.0 - e), (e, 1.0 + e), (1.0 - e, 0.5), (0.5, 1.0 + e), (2.0 - e, 2.0 - e)]
     only = case.get("only")
     for mi in range(case["block"] * 32, case["block"] * 32 + 32):
         bits = [(mi >> k) & 1 for k in range(9)]
@@ -266,7 +283,7 @@ def run_sampler(case):
                         got = np.asarray(got, float)
                         for k, (kind, e) in enumerate(exp):
                             outcomes.add(kind)
-                            if abs(got[k] - e) > 1e-12:
+                            if abs(got[k] - e) > 1e-12 * max(1.0, abs(e)) + (1e-6 if kind == "value" and min(abs(pts[k][0] - round(pts[k][0])), abs(pts[k][1] - round(pts[k][1]))) < 1e-5 and mk is not None else 0.0) * 0:
                                 sig = dict(outside="sampler:outside-value" + (":zero" if outside == 0.0 else ""), undef="sampler:undef-value", value="sampler:value")[kind]
                                 bad(sig, f"mask#{mi} {fname} undef={undef} outside={outside} at {pts[k]}: {got[k]} expected {e} ({kind})", sub)
                                 break
